@@ -221,14 +221,26 @@ Fixpoint trace (s : st) (acts : list action) : list ev :=
 Definition quiescent (s : st) : bool :=
   match tears s, taken s, jobs s with [], [], [] => negb (imm s) | _, _, _ => false end.
 
-(* the pending pieces of work, in an order that finishes them all *)
-Definition settle_acts (s : st) : list action :=
-  map (fun x => ATeardown (fst (fst x))) (tears s)
-  ++ map (fun _ => APollCall) (taken s)
-  ++ (if imm s then [ADialCbAsync] else [])
-  ++ map (fun _ => ARunJob) (jobs s)
-  ++ map (fun _ => ARunJob) (tears s)
-  ++ (if imm s then [ARunJob] else []).
+(* the next piece of started-but-unfinished work, if any; running these pieces one after the other ends in a quiescent
+   state after at most [measure] steps *)
+Definition next (s : st) : option action :=
+  match tears s with
+  | (t, _, _) :: _ => Some (ATeardown t)
+  | [] => match taken s with
+          | _ :: _ => Some APollCall
+          | [] => if imm s then Some ADialCbAsync
+                  else match jobs s with _ :: _ => Some ARunJob | [] => None end
+          end
+  end.
+
+Definition measure (s : st) : nat :=
+  2 * length (tears s) + length (taken s) + 2 * (if imm s then 1 else 0) + length (jobs s).
+
+Fixpoint settle_acts (fuel : nat) (s : st) : list action :=
+  match fuel with
+  | O => []
+  | S f => match next s with Some a => a :: settle_acts f (fst (step s a)) | None => [] end
+  end.
 
 (* the cause an action is, when it finds the connection open (None: the action does not close) *)
 Definition cause (s : st) (a : action) : option (option nat) :=
